@@ -38,6 +38,11 @@ def _pure(e):
     if isinstance(e, ast.Call) and isinstance(e.func, ast.Attribute) and isinstance(e.func.value, ast.Name) and e.func.value.id == "re" \
             and e.func.attr == "compile" and e.args and all(isinstance(a, ast.Constant) for a in e.args) and not e.keywords:
         return True  # a compiled constant pattern: immutable, and compiling it again gives an equal object
+    if isinstance(e, ast.Call) and not isinstance(e, ast.Lambda) and _as_lambda(e) is not None:
+        return True  # attrgetter("name") / itemgetter(k) / methodcaller("m", …) with constant arguments: immutable function objects
+    if isinstance(e, ast.Call) and _is_partial(e) and all(isinstance(a, ast.Constant) for a in e.args[1:]) and all(isinstance(k.value, ast.Constant) for k in e.keywords) \
+            and isinstance(e.args[0], (ast.Name, ast.Attribute)):
+        return True  # partial(f, constants…): applied where it is called
     if isinstance(e, ast.Dict):
         # a row may carry keyword options: {"is_gate": True}; only ever spliced into a call as **options (checked at the use)
         return all(isinstance(k, ast.Constant) and isinstance(k.value, str) for k in e.keys) and all(_pure(v) and not isinstance(v, ast.Dict) for v in e.values)
@@ -47,6 +52,34 @@ def _pure(e):
 def _simple(e):
     return isinstance(e, (ast.Name, ast.Constant)) or (isinstance(e, ast.Attribute) and _simple(e.value)) or \
         (isinstance(e, ast.Subscript) and _simple(e.value) and isinstance(e.slice, (ast.Name, ast.Constant)))
+
+
+def _as_literal(v):
+    """the tuple / list / dict literal that v spells: the literal itself, tuple(LIT) / list(LIT), tuple(map(f, LIT)) with f a plain name
+    (each row is then f(element)), dict(a=…, b=…)"""
+    if isinstance(v, (ast.Tuple, ast.List, ast.Dict)):
+        return v
+    if isinstance(v, ast.Call) and isinstance(v.func, ast.Name) and v.func.id in ("tuple", "list") and len(v.args) == 1 and not v.keywords:
+        a = v.args[0]
+        if isinstance(a, (ast.Tuple, ast.List)):
+            return ast.copy_location(ast.Tuple(elts=list(a.elts), ctx=ast.Load()), v)
+        if isinstance(a, ast.Call) and isinstance(a.func, ast.Name) and a.func.id == "map" and len(a.args) == 2 and not a.keywords \
+                and isinstance(a.args[0], (ast.Name, ast.Attribute)) and isinstance(a.args[1], (ast.Tuple, ast.List)) \
+                and not any(isinstance(x, ast.Starred) for x in a.args[1].elts):
+            rows = [ast.copy_location(ast.Call(func=copy_tree(a.args[0]), args=[x], keywords=[]), x) for x in a.args[1].elts]
+            return ast.copy_location(ast.Tuple(elts=rows, ctx=ast.Load()), v)
+    comp = v.args[0] if isinstance(v, ast.Call) and isinstance(v.func, ast.Name) and v.func.id in ("tuple", "list") and len(v.args) == 1 and not v.keywords else v
+    if isinstance(comp, (ast.GeneratorExp, ast.ListComp)) and (comp is not v or isinstance(comp, ast.ListComp)) and len(comp.generators) == 1:
+        # tuple(E(x) for x in (a, b, c))  ->  (E(a), E(b), E(c))     constant elements, no filter
+        g = comp.generators[0]
+        if not g.ifs and not g.is_async and isinstance(g.target, ast.Name) and isinstance(g.iter, (ast.Tuple, ast.List)) \
+                and all(isinstance(x, ast.Constant) for x in g.iter.elts) and g.iter.elts \
+                and not any(isinstance(x, (ast.Lambda, ast.GeneratorExp, ast.ListComp, ast.NamedExpr)) for x in ast.walk(comp.elt)):
+            rows = [_Sub({g.target.id: x}).visit(copy_tree(comp.elt)) for x in g.iter.elts]
+            return ast.fix_missing_locations(ast.copy_location(ast.Tuple(elts=rows, ctx=ast.Load()), v))
+    if isinstance(v, ast.Call) and isinstance(v.func, ast.Name) and v.func.id == "dict" and not v.args and v.keywords and all(k.arg for k in v.keywords):
+        return ast.copy_location(ast.Dict(keys=[ast.Constant(value=k.arg) for k in v.keywords], values=[k.value for k in v.keywords]), v)
+    return None
 
 
 class _Tables:
@@ -80,7 +113,7 @@ class _Tables:
             if isinstance(st, ast.Assign) and len(st.targets) == 1 and isinstance(st.targets[0], ast.Name):
                 nm = st.targets[0].id
                 if stores.get(nm) == 1 and nm not in mutated and self._literal(st.value):
-                    self.module[nm] = st.value
+                    self.module[nm] = _as_literal(st.value)
             if isinstance(st, ast.ClassDef):
                 for s2 in st.body:
                     if isinstance(s2, ast.Assign) and len(s2.targets) == 1 and isinstance(s2.targets[0], ast.Name):
@@ -91,7 +124,7 @@ class _Tables:
                             else:
                                 # a class-level table may name functions of the class body: outside the class body they are C.f
                                 fns = {x.name for x in st.body if isinstance(x, (ast.FunctionDef, ast.AsyncFunctionDef))}
-                                val = s2.value
+                                val = _as_literal(s2.value)
                                 if any(isinstance(x, ast.Name) and x.id in fns for x in ast.walk(val)):
                                     val = _Qualify(st.name, fns).visit(copy_tree(val))
                                 self.cls[nm] = val
@@ -99,7 +132,7 @@ class _Tables:
 
     @staticmethod
     def _literal(v):
-        return isinstance(v, (ast.Tuple, ast.List, ast.Dict))
+        return _as_literal(v) is not None
 
     def resolve(self, e, local):
         if isinstance(e, ast.Name):
@@ -247,17 +280,12 @@ def _structure(stmts, on_jump):
             out.append(st)
             return out, False
         if isinstance(st, ast.If) and _level_jumps([st])[0]:
+            # what follows the `if` is appended to both branches before they are structured: inside a branch it then lands exactly on
+            # the paths that fall through (a nested `if` whose arms partly jump included)
             rest = stmts[i + 1:]
-            body, b_falls = _structure(st.body, on_jump)
-            orelse, o_falls = _structure(st.orelse, on_jump) if st.orelse else ([], True)
+            body, b_falls = _structure(list(st.body) + [copy_tree(x) for x in rest], on_jump)
+            orelse, o_falls = _structure(list(st.orelse) + [copy_tree(x) for x in rest], on_jump)
             falls = b_falls or o_falls
-            if rest:
-                rest_new, r_falls = _structure(rest, on_jump)
-                if b_falls:
-                    body = body + copy_tree(rest_new)
-                if o_falls:
-                    orelse = orelse + copy_tree(rest_new)
-                falls = falls and r_falls
             new_if = ast.copy_location(ast.If(test=st.test, body=body or [ast.copy_location(ast.Pass(), st)], orelse=orelse), st)
             out.append(new_if)
             return out, falls
@@ -291,6 +319,21 @@ class _LazyLocal:
                     if stores.get(nm) == 1 and nm not in params:
                         self.d[nm] = v
         return self.d.get(name, default)
+
+
+def _bool_valued(e):
+    """e evaluates to True or False whatever its operands"""
+    if isinstance(e, ast.Compare):
+        return True
+    if isinstance(e, ast.Constant):
+        return isinstance(e.value, bool)
+    if isinstance(e, ast.UnaryOp) and isinstance(e.op, ast.Not):
+        return True
+    if isinstance(e, ast.BoolOp):
+        return all(_bool_valued(v) for v in e.values)
+    if isinstance(e, ast.Call) and isinstance(e.func, ast.Name) and e.func.id in ("isinstance", "issubclass", "bool", "callable", "hasattr", "all", "any"):
+        return True
+    return False
 
 
 class _Unroller(ast.NodeTransformer):
@@ -336,10 +379,56 @@ class _Unroller(ast.NodeTransformer):
                         return out or [ast.copy_location(ast.Pass(), st)]
                     i += 1
                     continue
+            if self.func[-1] is not None and not isinstance(st, (ast.FunctionDef, ast.AsyncFunctionDef, ast.ClassDef)):
+                self._quantifiers(st)
             r = self.visit(st)
             out.append(r if r is not None else st)
             i += 1
         return out
+
+    def _quantifiers(self, st):
+        """all(E(row) for row in TABLE) -> E(r1) and E(r2) and …   (any: or) when E is boolean-valued: same value, same evaluation
+        order, same short circuit.  Only the statement's own expressions (header of a compound statement) are looked at."""
+        outer = self
+
+        class Q(ast.NodeTransformer):
+            def visit_Lambda(self, n):
+                return n
+
+            def visit_Call(self, n):
+                self.generic_visit(n)
+                if not (isinstance(n.func, ast.Name) and n.func.id in ("all", "any") and len(n.args) == 1 and not n.keywords
+                        and isinstance(n.args[0], ast.GeneratorExp) and len(n.args[0].generators) == 1):
+                    return n
+                g = n.args[0].generators[0]
+                if g.is_async or not _bool_valued(n.args[0].elt) or not all(_bool_valued(t) for t in g.ifs):
+                    return n
+                rows = outer.tables.rows(g.iter, outer.local[-1])
+                if rows is None:
+                    return n
+                vals = []
+                for r in rows:
+                    m = {}
+                    if not outer.tables.bind(g.target, r, outer.local[-1], m):
+                        return n
+                    if any(isinstance(v, ast.Dict) for v in m.values()):
+                        return n
+                    e = _Fold().visit(_Sub(m).visit(copy_tree(n.args[0].elt)))
+                    conds = [_Fold().visit(_Sub(m).visit(copy_tree(t))) for t in g.ifs]
+                    if conds:
+                        c = conds[0] if len(conds) == 1 else ast.BoolOp(op=ast.And(), values=conds)
+                        if n.func.id == "all":
+                            e = ast.BoolOp(op=ast.Or(), values=[ast.UnaryOp(op=ast.Not(), operand=c), e])
+                        else:
+                            e = ast.BoolOp(op=ast.And(), values=[c, e])
+                    vals.append(e)
+                new = vals[0] if len(vals) == 1 else ast.BoolOp(op=ast.And() if n.func.id == "all" else ast.Or(), values=vals)
+                outer.count += 1
+                return ast.fix_missing_locations(ast.copy_location(new, n))
+        for fld, val in ast.iter_fields(st):
+            if isinstance(val, ast.expr):
+                if any(isinstance(x, ast.Call) and isinstance(x.func, ast.Name) and x.func.id in ("all", "any") for x in ast.walk(val)):
+                    setattr(st, fld, Q().visit(val))
 
     def unroll(self, n, rest):
         """(replacement statements, whether the rest of the block was taken along) or None"""
@@ -446,8 +535,9 @@ class _Unroller(ast.NodeTransformer):
 class _Fold(ast.NodeTransformer):
     """reflective access with a constant name, immediately applied lambdas, two-way dispatch through a {False: a, True: b} table"""
 
-    def __init__(self, tables=None):
+    def __init__(self, tables=None, operator_names=()):
         self.tables = tables
+        self.operator_names = set(operator_names)  # names imported from the operator module
 
     def visit_Subscript(self, n):
         self.generic_visit(n)
@@ -480,6 +570,19 @@ class _Fold(ast.NodeTransformer):
         if isinstance(n.func, ast.Name) and n.func.id == "getattr" and len(n.args) == 2 and not n.keywords \
                 and isinstance(n.args[1], ast.Constant) and isinstance(n.args[1].value, str) and n.args[1].value.isidentifier():
             return ast.copy_location(ast.Attribute(value=n.args[0], attr=n.args[1].value, ctx=ast.Load()), n)
+        # operator.contains(a, b) -> b in a     operator.eq / ne / is_ / is_not (a, b)     operator.not_(a) / truth(a)
+        fn_ = n.func.attr if isinstance(n.func, ast.Attribute) and isinstance(n.func.value, ast.Name) and n.func.value.id == "operator" else (
+            n.func.id if isinstance(n.func, ast.Name) else None)
+        if fn_ in ("contains", "eq", "ne", "is_", "is_not") and len(n.args) == 2 and not n.keywords and (isinstance(n.func, ast.Attribute) or fn_ in self.operator_names):
+            a_, b_ = n.args
+            if fn_ == "contains":
+                return ast.copy_location(ast.Compare(left=b_, ops=[ast.In()], comparators=[a_]), n)
+            op_ = {"eq": ast.Eq, "ne": ast.NotEq, "is_": ast.Is, "is_not": ast.IsNot}[fn_]()
+            return ast.copy_location(ast.Compare(left=a_, ops=[op_], comparators=[b_]), n)
+        if isinstance(n.func, ast.Call) and _is_partial(n.func):
+            # partial(f, a, k=v)(b, …)  ->  f(a, b, …, k=v)
+            v = n.func
+            return ast.copy_location(ast.Call(func=v.args[0], args=list(v.args[1:]) + list(n.args), keywords=list(v.keywords) + list(n.keywords)), n)
         if isinstance(n.func, ast.Call) and _as_lambda(n.func) is not None and not isinstance(n.func, ast.Lambda):
             n.func = _as_lambda(n.func)
         if isinstance(n.func, ast.Lambda) and not n.keywords:
@@ -517,15 +620,27 @@ def unroll(tree, nodes=None):
                 choice = True
         elif isinstance(x, ast.Dict) and len(x.keys) == 2 and all(isinstance(k, ast.Constant) and isinstance(k.value, bool) for k in x.keys):
             fold = choice = True
-    if any(isinstance(x, ast.Assign) and (isinstance(x.value, ast.Lambda) or (isinstance(x.value, ast.Call) and (
-            (isinstance(x.value.func, ast.Name) and x.value.func.id in ("attrgetter", "itemgetter", "methodcaller", "partial")) or
-            (isinstance(x.value.func, ast.Attribute) and x.value.func.attr in ("attrgetter", "itemgetter", "methodcaller", "partial"))))) for x in nodes) \
-            and _apply_local_lambdas(tree):
+    def _callable_local(v):
+        if isinstance(v, ast.Lambda):
+            return True
+        if isinstance(v, ast.Attribute) and isinstance(v.value, ast.Name):
+            return v.attr in ("append", "add", "extend", "update", "remove", "discard", "pop", "popleft", "appendleft", "insert", "setdefault", "get", "write") \
+                or (v.attr in METHOD_NAMES and v.value.id in ("self", "cls"))
+        if isinstance(v, ast.Call):
+            f = v.func
+            return (f.id if isinstance(f, ast.Name) else f.attr if isinstance(f, ast.Attribute) else None) in ("attrgetter", "itemgetter", "methodcaller", "partial")
+        return False
+    if any(isinstance(x, ast.Assign) and _callable_local(x.value) for x in nodes):
+        _apply_local_lambdas(tree)
         fold = True
-    if not (has_for or fold or choice):
+    quant = any(isinstance(x, ast.Call) and isinstance(x.func, ast.Name) and x.func.id in ("all", "any") and x.args and isinstance(x.args[0], ast.GeneratorExp)
+                and isinstance(x.args[0].generators[0].iter, (ast.Name, ast.Tuple, ast.List, ast.Attribute)) for x in nodes)
+    if not (has_for or fold or choice or quant):
         return tree, 0
     tables = _Tables(tree, nodes)
     u = _Unroller(tables)
+    if quant and not has_for:
+        tree = u.visit(tree)
     if has_for and (tables.module or tables.cls or any(
             isinstance(x, ast.For) and not isinstance(x.iter, (ast.Call, ast.Attribute)) or
             (isinstance(x, ast.For) and isinstance(x.iter, ast.Call) and isinstance(x.iter.func, ast.Attribute) and x.iter.func.attr in ("items", "keys", "values")
@@ -536,8 +651,11 @@ def unroll(tree, nodes=None):
         any(isinstance(x, ast.Dict) and x.keys for x in nodes) and _dict_get_dispatch(tree, tables)
     if any(isinstance(x, ast.Call) and isinstance(x.func, ast.Name) and x.func.id == "next" and x.args and isinstance(x.args[0], ast.GeneratorExp) for x in nodes):
         dispatch = _next_dispatch(tree, tables) or dispatch
+    op_names = {a.asname or a.name for x in nodes if isinstance(x, ast.ImportFrom) and x.module == "operator" for a in x.names}
+    if op_names & {"contains", "eq", "ne", "is_", "is_not"}:
+        fold = True
     if u.count or fold or dispatch:
-        tree = _Fold(tables).visit(tree)
+        tree = _Fold(tables, op_names).visit(tree)
         ast.fix_missing_locations(tree)
         choice = True
         # x = A if c else B produced by the folds above: a statement again
@@ -545,7 +663,9 @@ def unroll(tree, nodes=None):
         # constants picked by a branch and used reflectively further down: read the continuation once per choice
         for fn in ast.walk(tree):
             if isinstance(fn, (ast.FunctionDef, ast.AsyncFunctionDef)) and (_reflective_use(fn.body, None) or _has_row_binding(fn.body)):
-                fn.body = _fold_constant_tests(specialise(fn.body)) or fn.body
+                assigned_ = {x.id for x in ast.walk(fn) if isinstance(x, ast.Name) and not isinstance(x.ctx, ast.Load)} | \
+                    {a.arg for a in fn.args.args if a.arg not in ("self", "cls")}
+                fn.body = _fold_constant_tests(specialise(fn.body, 0, assigned_)) or fn.body
         ast.fix_missing_locations(tree)
     if choice:
         tree = _Choice().visit(tree)
@@ -712,7 +832,11 @@ def _is_partial(v):
     if not isinstance(v, ast.Call) or not v.args:
         return False
     fn = v.func.attr if isinstance(v.func, ast.Attribute) else (v.func.id if isinstance(v.func, ast.Name) else None)
-    return fn == "partial" and _simple(v.args[0]) and all(_simple(a) for a in v.args[1:]) and all(k.arg is not None and _simple(k.value) for k in v.keywords)
+    def ok(a):
+        # plain reads, and live dict views (d.values() called again gives a view of the same dict)
+        return _simple(a) or (isinstance(a, ast.Call) and not a.args and not a.keywords and isinstance(a.func, ast.Attribute)
+                              and a.func.attr in ("values", "keys", "items") and _simple(a.func.value))
+    return fn == "partial" and _simple(v.args[0]) and all(ok(a) for a in v.args[1:]) and all(k.arg is not None and _simple(k.value) for k in v.keywords)
 
 
 def _apply_local_lambdas(tree):
@@ -735,6 +859,11 @@ def _apply_local_lambdas(tree):
                         lam[st.targets[0].id] = v
                 elif _is_partial(st.value):
                     lam[st.targets[0].id] = st.value  # functools.partial(f, a…): applied by appending the call's arguments
+                elif isinstance(st.value, ast.Attribute) and _simple(st.value) and isinstance(st.value.value, ast.Name) \
+                        and stores.get(st.value.value.id, 0) <= 1 and (st.value.attr in ("append", "add", "extend", "update", "remove", "discard", "pop", "popleft",
+                                                                                          "appendleft", "insert", "setdefault", "get", "write")
+                                                                       or (st.value.attr in METHOD_NAMES and st.value.value.id in ("self", "cls"))):
+                    lam[st.targets[0].id] = st.value  # keep = kept.append … keep(x): a bound method of a container held in a local
         if not lam:
             continue
         # only when every use of the name is a call of it
@@ -753,6 +882,8 @@ def _apply_local_lambdas(tree):
                     if isinstance(v, ast.Lambda):
                         if not n.keywords and len(n.args) == len(v.args.args):
                             n.func = ast.copy_location(copy_tree(v), n.func)
+                    elif isinstance(v, ast.Attribute):
+                        n.func = ast.copy_location(copy_tree(v), n.func)
                     else:
                         # partial(f, a, k=v)(b, …)  ->  f(a, b, …, k=v)
                         return ast.copy_location(ast.Call(func=copy_tree(v.args[0]), args=[copy_tree(x) for x in v.args[1:]] + list(n.args),
@@ -912,16 +1043,46 @@ class _Choice(ast.NodeTransformer):
 
 # ------------------------------------------------------------------------------------------------------------------------------
 # specialisation of a continuation on constants picked by a branch (used on inlined views, see inline.inlined_view)
-def _const_binding(st, out):
+METHOD_NAMES = set()  # names of plain (non-property) functions and methods seen anywhere in the program: filled by the loader's pre-scan
+
+
+def _stable(v, assigned):
+    """the value does not depend on when it is read: literals, functions, classes, bound methods — not object fields (`e.definition`
+    reads differently after `d.remove_cable(e)`)"""
+    if isinstance(v, ast.Constant) or isinstance(v, ast.Lambda):
+        return True
+    if isinstance(v, (ast.Tuple, ast.List)):
+        return all(_stable(x, assigned) for x in v.elts)
+    if isinstance(v, ast.Dict):
+        return all(k is not None and _stable(k, assigned) for k in v.keys) and all(_stable(x, assigned) for x in v.values)
+    if isinstance(v, ast.Call):
+        return _pure(v)  # re.compile(<constant>)
+    if isinstance(v, ast.Name):
+        return v.id not in assigned
+    if isinstance(v, ast.Attribute):
+        root = v
+        while isinstance(root, ast.Attribute):
+            root = root.value
+        if not isinstance(root, ast.Name) or root.id in assigned:
+            return False
+        return root.id[:1].isupper() or v.attr in METHOD_NAMES or v.attr[:1].isupper()  # Class.x, obj.method, module.Class / module.CONSTANT
+    return False
+
+
+def _const_binding(st, out, assigned=None):
     """`n = <constant>` / `a, b = ("x", "y")`: adds name -> constant expression to out; False when st is not of that kind"""
     if not (isinstance(st, ast.Assign) and len(st.targets) == 1):
         return False
     t, v = st.targets[0], st.value
-    if isinstance(t, ast.Name) and _pure(v) and not isinstance(v, ast.Name):
+    if isinstance(t, ast.Name) and not isinstance(v, ast.Lambda) and _as_lambda(v) is not None:
+        out[t.id] = _as_lambda(v)  # methodcaller("add_cable", e) and the like: the function it stands for
+        return True
+    ok = (lambda x: _pure(x) and _stable(x, assigned)) if assigned is not None else _pure
+    if isinstance(t, ast.Name) and ok(v) and not isinstance(v, ast.Name):
         out[t.id] = v
         return True
     if isinstance(t, (ast.Tuple, ast.List)) and isinstance(v, (ast.Tuple, ast.List)) and len(t.elts) == len(v.elts) \
-            and all(isinstance(x, ast.Name) for x in t.elts) and all(_pure(x) for x in v.elts):
+            and all(isinstance(x, ast.Name) for x in t.elts) and all(ok(x) for x in v.elts):
         for x, y in zip(t.elts, v.elts):
             out[x.id] = y
         return True
@@ -991,7 +1152,7 @@ def _reflective_use(stmts, names):
     return False
 
 
-def specialise(stmts, depth=0):
+def specialise(stmts, depth=0, assigned=None):
     """if c: n = "a" else: n = "b"; REST   ->   if c: n = "a"; REST[n:="a"] else: n = "b"; REST[n:="b"]
     when every branch that falls through does nothing but bind the same names to constants, REST does not rebind them and uses one
     of them reflectively (getattr(x, n), n(…)).  A branch that cannot fall through (return / raise, or an unpacking that must fail)
@@ -1001,10 +1162,12 @@ def specialise(stmts, depth=0):
         for fld in ("body", "orelse", "finalbody"):
             sub = getattr(st, fld, None)
             if isinstance(sub, list) and sub and isinstance(sub[0], ast.stmt) and not isinstance(st, (ast.FunctionDef, ast.AsyncFunctionDef, ast.ClassDef)):
-                setattr(st, fld, specialise(sub, depth))
+                setattr(st, fld, specialise(sub, depth, assigned))
         rest = stmts[i + 1:]
         m0 = {}
-        if rest and _const_binding(st, m0) and depth < 6:
+        if assigned is None:
+            assigned = {x.id for s_ in stmts for x in ast.walk(s_) if isinstance(x, ast.Name) and not isinstance(x.ctx, ast.Load)}
+        if rest and _const_binding(st, m0, assigned - {t_.id for t_ in ast.walk(st.targets[0]) if isinstance(t_, ast.Name)} if isinstance(st, ast.Assign) else assigned) and depth < 6:
             # n = "name" … getattr(x, n): the constant is read where the name was (the name is not rebound further down)
             names0 = set(m0)
             rebound = any(isinstance(x, ast.Name) and x.id in names0 and not isinstance(x.ctx, ast.Load) for s_ in rest for x in ast.walk(s_))
@@ -1020,7 +1183,7 @@ def specialise(stmts, depth=0):
                 for s_ in cont:
                     ast.fix_missing_locations(s_)
                 out.append(st)
-                out.extend(specialise(cont, depth + 1))
+                out.extend(specialise(cont, depth + 1, assigned))
                 return out
         if isinstance(st, ast.If) and rest and depth < 3:
             leaves = _leaves(st)
@@ -1039,16 +1202,28 @@ def specialise(stmts, depth=0):
                     ok = False
                     break
                 for x in blk:
-                    if not _const_binding(x, m):
+                    if not _const_binding(x, m, assigned - {t_.id for t_ in ast.walk(x) if isinstance(t_, ast.Name) and isinstance(t_.ctx, ast.Store)}):
                         # `a, b = None` cannot succeed: the branch does not fall through
                         if isinstance(x, ast.Assign) and isinstance(x.targets[0], (ast.Tuple, ast.List)) and isinstance(x.value, ast.Constant) and len(blk) == 1:
                             m = None
-                        else:
-                            ok = False
-                        break
+                            break
+                        # any other statement: allowed as long as it does not touch the names the branch binds to constants
+                        # (checked below, once those names are known)
+                if m is not None:
+                    stored_elsewhere = {n_.id for x in blk if not _const_binding(x, {}, assigned - {t_.id for t_ in ast.walk(x) if isinstance(t_, ast.Name) and isinstance(t_.ctx, ast.Store)})
+                                        for n_ in ast.walk(x) if isinstance(n_, ast.Name) and not isinstance(n_.ctx, ast.Load)}
+                    m = {k_: v_ for k_, v_ in m.items() if k_ not in stored_elsewhere}
+                    # a lambda that reads a local the branch assigns must see that value: only constants and the branch's own plain locals
                 binds.append(m)
             live = [m for m in binds if m]
-            if ok and live and all(set(m) == set(live[0]) for m in live):
+            if ok and live and len(live) == len([m for m in binds if m is not None]):
+                common = set(live[0])
+                for m in live[1:]:
+                    common &= set(m)
+                binds = [({k_: v_ for k_, v_ in m.items() if k_ in common} if m else m) for m in binds]
+                live = [m for m in binds if m]
+            falling = [m for m in binds if m is not None]
+            if ok and live and len(live) == len(falling) and all(set(m) == set(live[0]) for m in live) and live[0]:
                 names = set(live[0])
                 rebound = any(isinstance(x, ast.Name) and x.id in names and not isinstance(x.ctx, ast.Load) for s_ in rest for x in ast.walk(s_))
                 captured = any(isinstance(x, (ast.FunctionDef, ast.Lambda)) and any(isinstance(z, ast.Name) and z.id in names for z in ast.walk(x))
@@ -1061,7 +1236,7 @@ def specialise(stmts, depth=0):
                             cont = [_Fold().visit(s_) for s_ in cont]
                             for s_ in cont:
                                 ast.fix_missing_locations(s_)
-                            getattr(owner, fld).extend(specialise(cont, depth + 1))
+                            getattr(owner, fld).extend(specialise(cont, depth + 1, assigned))
                     out.append(st)
                     return out
         out.append(st)
